@@ -33,31 +33,37 @@ Lemma exec_augassign : forall c x op e r,
   match lookup x r with
   | None => Raised OtherError
   | Some old =>
-      match eval c r e with
-      | Ok v => match eval_bin op old v with Ok w => Next (bind_var x w r) | Raise ex => Raised ex end
-      | Raise ex => Raised ex
+      match old with
+      | VList _ => Raised OtherError
+      | _ =>
+          match eval c r e with
+          | Ok v => match eval_bin op old v with Ok w => Next (bind_var x w r) | Raise ex => Raised ex end
+          | Raise ex => Raised ex
+          end
       end
   end.
-Proof. reflexivity. Qed.
+Proof. intros c x op e r. cbn [exec]. destruct (lookup x r) as [[]|]; reflexivity. Qed.
 
 Lemma exec_if : forall c cnd th el r,
   exec c (SIf cnd th el) r =
   match eval c r cnd with
   | Raise ex => Raised ex
-  | Ok v => exec_block c (if truthy v then th else el) r
+  | Ok v => if testable v then exec_block c (if truthy v then th else el) r else Raised OtherError
   end.
 Proof.
   intros c cnd th el r.
   change (exec c (SIf cnd th el) r) with
     (match eval c r cnd with
      | Raise ex => Raised ex
-     | Ok v => (fix block (l : list stmt) (r : env) {struct l} : outcome :=
+     | Ok v => if testable v then
+                 (fix block (l : list stmt) (r : env) {struct l} : outcome :=
                   match l with
                   | [] => Next r
                   | s' :: l' => match exec c s' r with Next r' => block l' r' | o => o end
                   end) (if truthy v then th else el) r
+               else Raised OtherError
      end).
-  destruct (eval c r cnd) as [v|ex]; [apply block_eq | reflexivity].
+  destruct (eval c r cnd) as [v|ex]; [|reflexivity]. destruct (testable v); [apply block_eq | reflexivity].
 Qed.
 
 Lemma exec_return : forall c e r,
@@ -70,15 +76,35 @@ Proof. reflexivity. Qed.
 Lemma exec_pass : forall c r, exec c SPass r = Next r.
 Proof. reflexivity. Qed.
 
-Lemma exec_expr : forall c e r,
+(* an expression statement that is not x.append(..) / x.extend(..) *)
+Lemma exec_expr : forall c e r, mutation_of e = None ->
   exec c (SExpr e) r = match eval c r e with Ok _ => Next r | Raise ex => Raised ex end.
-Proof. reflexivity. Qed.
+Proof. intros c e r H. cbn [exec]. rewrite H. reflexivity. Qed.
+
+(* x.append(arg) / x.extend(arg) *)
+Lemma exec_mutation : forall c e r x is_extend arg, mutation_of e = Some (x, is_extend, arg) ->
+  exec c (SExpr e) r =
+  match lookup x r with
+  | Some (VList l) =>
+      match eval c r arg with
+      | Raise ex => Raised ex
+      | Ok v =>
+          if is_extend then
+            match elements v with
+            | Ok vs => Next (bind_var x (VList (l ++ vs)) r)
+            | Raise ex => Raised ex
+            end
+          else Next (bind_var x (VList (l ++ [v])) r)
+      end
+  | _ => Raised OtherError
+  end.
+Proof. intros c e r x is_extend arg H. cbn [exec]. rewrite H. reflexivity. Qed.
 
 Lemma exec_assert : forall c cnd r,
   exec c (SAssert cnd) r =
   match eval c r cnd with
   | Raise ex => Raised ex
-  | Ok v => if truthy v then Next r else Raised AssertionError
+  | Ok v => if testable v then (if truthy v then Next r else Raised AssertionError) else Raised OtherError
   end.
 Proof. reflexivity. Qed.
 
@@ -88,6 +114,8 @@ Lemma exec_try1 : forall c b ex handler orelse r,
   | Next r' => exec_block c orelse r'
   | Returned v => Returned v
   | Raised e => if catches ex e then exec_block c handler r else Raised e
+  | Broke r' => Broke r'
+  | Continued r' => Continued r'
   end.
 Proof.
   intros c b ex handler orelse r.
@@ -101,17 +129,131 @@ Proof.
      | Next r' => block orelse r'
      | Returned v => Returned v
      | Raised e => if catches ex e then block handler r else Raised e
+     | Broke r' => Broke r'
+     | Continued r' => Continued r'
      end).
-  cbv zeta. destruct (exec c b r) as [r'|v|e]; [apply block_eq | reflexivity |].
+  cbv zeta. destruct (exec c b r) as [r'|v|e|r'|r']; [apply block_eq | reflexivity | | reflexivity | reflexivity].
   destruct (catches ex e); [apply block_eq | reflexivity].
 Qed.
 
+Lemma exec_break : forall c r, exec c SBreak r = Broke r.
+Proof. reflexivity. Qed.
+Lemma exec_continue : forall c r, exec c SContinue r = Continued r.
+Proof. reflexivity. Qed.
+
+(* ---- for ----------------------------------------------------------------------------------
+   the loop of [exec], as a function of its own: structural recursion over the element
+   outcomes of the (already evaluated) iterable *)
+Fixpoint for_loop (c : ctx) (t : target) (body : list stmt) (items : list (res val)) (r : env) : outcome :=
+  match items with
+  | [] => Next r
+  | Raise ex :: _ => Raised ex
+  | Ok v :: items' =>
+      match bind_target t v r with
+      | None => Raised OtherError
+      | Some r1 =>
+          match exec_block c body r1 with
+          | Next r2 | Continued r2 => for_loop c t body items' r2
+          | Broke r2 => Next r2
+          | o => o
+          end
+      end
+  end.
+
+Lemma exec_for : forall c t it body r,
+  exec c (SFor t it body) r =
+  match eval c r it with
+  | Raise ex => Raised ex
+  | Ok vi => match iter_items vi with
+             | Raise ex => Raised ex
+             | Ok items => for_loop c t body items r
+             end
+  end.
+Proof.
+  intros c t it body r. cbn [exec].
+  destruct (eval c r it) as [vi|ex]; [|reflexivity].
+  destruct (iter_items vi) as [items|ex]; [|reflexivity].
+  revert r. induction items as [|[v|ex] items IH]; intro r; [reflexivity | | reflexivity].
+  cbn [for_loop]. destruct (bind_target t v r) as [r1|]; [|reflexivity].
+  rewrite block_eq. destruct (exec_block c body r1); try reflexivity; apply IH.
+Qed.
+
+(* ---- a loop against its model ---------------------------------------------------------------
+   The model of a loop: a state [St], a step function on the items [X] that goes on, breaks or
+   raises.  If the loop body, started in any environment related to a state by [R], ends in the
+   outcome the step function prescribes, in an environment related to the new state, then the
+   whole `for` does what [loop_model] does.  [R] is the loop invariant; it is a relation between
+   model states and ENVIRONMENTS (normally: what [lookup] gives for a few names), so it says
+   nothing about the other variables the body may bind. *)
+Inductive lres (St : Type) := LNext (s : St) | LBreak (s : St) | LRaise (e : exn).
+Arguments LNext {St} s.
+Arguments LBreak {St} s.
+Arguments LRaise {St} e.
+
+Fixpoint loop_model {St X} (step : St -> X -> lres St) (st : St) (xs : list X) : res St :=
+  match xs with
+  | [] => Ok st
+  | x :: xs' => match step st x with
+                | LNext s => loop_model step s xs'
+                | LBreak s => Ok s
+                | LRaise e => Raise e
+                end
+  end.
+
+(* what the outcome of one round must be *)
+Definition round_post {St} (R : St -> env -> Prop) (m : lres St) (o : outcome) : Prop :=
+  match o with
+  | Next r2 | Continued r2 => exists s, m = LNext s /\ R s r2
+  | Broke r2 => exists s, m = LBreak s /\ R s r2
+  | Raised e => m = LRaise e
+  | Returned _ => False
+  end.
+
+(* what the outcome of the loop is *)
+Definition loop_post {St} (R : St -> env -> Prop) (m : res St) (o : outcome) : Prop :=
+  match o with
+  | Next r' => exists s, m = Ok s /\ R s r'
+  | Raised e => m = Raise e
+  | _ => False
+  end.
+
+Theorem for_loop_model : forall {St X} (c : ctx) (t : target) (body : list stmt)
+    (emb : X -> val) (step : St -> X -> lres St) (R : St -> env -> Prop),
+  (forall st x r, R st r ->
+     match bind_target t (emb x) r with
+     | None => False
+     | Some r1 => round_post R (step st x) (exec_block c body r1)
+     end) ->
+  forall xs st r, R st r ->
+    loop_post R (loop_model step st xs) (for_loop c t body (map (fun x => Ok (emb x)) xs) r).
+Proof.
+  intros St X c t body emb step R Hbody xs.
+  induction xs as [|x xs IH]; intros st r HR.
+  - cbn [map for_loop loop_model loop_post]. exists st. split; [reflexivity | exact HR].
+  - cbn [map for_loop loop_model]. specialize (Hbody st x r HR).
+    destruct (bind_target t (emb x) r) as [r1|]; [|contradiction].
+    destruct (exec_block c body r1) as [r2|v|e|r2|r2]; cbn [round_post] in Hbody.
+    + destruct Hbody as [s [Hs HR2]]. rewrite Hs. apply IH, HR2.
+    + contradiction.
+    + rewrite Hbody. reflexivity.
+    + destruct Hbody as [s [Hs HR2]]. rewrite Hs. cbn [loop_post]. exists s. split; [reflexivity | exact HR2].
+    + destruct Hbody as [s [Hs HR2]]. rewrite Hs. apply IH, HR2.
+Qed.
+
+
 (* the call wrapper, with the evaluator kept folded *)
 Definition outcome_res (o : outcome) : res val :=
-  match o with Next _ => Ok VNone | Returned v => Ok v | Raised e => Raise e end.
+  match o with Next _ => Ok VNone | Returned v => Ok v | Raised e => Raise e | Broke _ | Continued _ => Raise OtherError end.
 
 (* unfold ONE statement of the active block (the only closed [exec_block] application: the
    continuations mention a bound environment, which a [context] pattern can not capture) *)
+Ltac py_unfold_expr c e r :=
+  let m := eval cbv in (mutation_of e) in
+  lazymatch m with
+  | None => rewrite (exec_expr c e r (eq_refl : mutation_of e = None))
+  | Some (?x, ?ext, ?arg) => rewrite (exec_mutation c e r x ext arg (eq_refl : mutation_of e = Some (x, ext, arg)))
+  end.
+
 Ltac py_unfold1 :=
   match goal with
   | |- context [exec_block ?c [] ?r] => change (exec_block c [] r) with (Next r)
@@ -125,15 +267,18 @@ Ltac py_unfold1 :=
       | SReturn ?e => rewrite (exec_return c e r)
       | SRaise ?ex => rewrite (exec_raise c ex r)
       | SPass => rewrite (exec_pass c r)
-      | SExpr ?e => rewrite (exec_expr c e r)
+      | SExpr ?e => py_unfold_expr c e r
       | SAssert ?cnd => rewrite (exec_assert c cnd r)
       | STry [?b] ?ex ?h ?o => rewrite (exec_try1 c b ex h o r)
+      | SFor ?t ?it ?body => rewrite (exec_for c t it body r)
+      | SBreak => rewrite (exec_break c r)
+      | SContinue => rewrite (exec_continue c r)
       end
   | |- context [exec ?c ?s ?r] =>          (* the single statement of a try body *)
       lazymatch s with
       | SAssign ?x ?e => rewrite (exec_assign c x e r)
       | SReturn ?e => rewrite (exec_return c e r)
-      | SExpr ?e => rewrite (exec_expr c e r)
+      | SExpr ?e => py_unfold_expr c e r
       | SRaise ?ex => rewrite (exec_raise c ex r)
       | SPass => rewrite (exec_pass c r)
       | SIf ?cnd ?th ?el => rewrite (exec_if c cnd th el r)
